@@ -376,7 +376,7 @@ class OdSpec(object):
         if n == "insert":
             return [n, rng.randint(-2, 4), k, v]
         if n == "pickle":
-            return [n, rng.choice([2, 3, 4, 5])]
+            return [n, rng.choice([2, 3, 4, 5, 0, 1])]
         if n == "sift":
             return [n, None if rng.random() < 0.2 else [rng.choice(KEYS) for _ in range(rng.randint(0, 3))]]
         if n == "reorder":
@@ -413,7 +413,7 @@ class OdSpec(object):
         for form in ("pairs", "dict", "odict", "same", "kw", "mixed", "gen"):
             al += [["update", form, two], ["create", form, two], ["ctor", form, two]]
         al += [["popitem"], ["clear"], ["copy"], ["deepcopy"], ["copycopy"], ["pickle", 2], ["pickle", 4],
-               ["pickle", 5], ["sift", None], ["sift", []], ["reorder", two], ["reorder", "self"], ["ior", two],
+               ["pickle", 5], ["pickle", 0], ["pickle", 1], ["sift", None], ["sift", []], ["reorder", two], ["reorder", "self"], ["ior", two],
                ["eq", [[ks[0], 101]]], ["eq", []]]
         return al
 
@@ -717,7 +717,7 @@ class MoSpec(object):
         if n in ("update", "ctor"):
             return [n, rng.choice(["pairs", "dict", "odict", "same", "kw", "mixed", "gen"]), self.pairs(rng)]
         if n == "pickle":
-            return [n, rng.choice([2, 4, 5])]
+            return [n, rng.choice([2, 4, 5, 0, 1])]
         if n == "fromkeys":
             return [n, [rng.choice(KEYS[:3]) for _ in range(rng.randint(0, 3))], v]
         if n == "eq":
@@ -746,7 +746,7 @@ class MoSpec(object):
         for form in ("pairs", "dict", "odict", "same", "kw", "mixed", "gen"):
             al += [["update", form, three], ["ctor", form, three]]
         al += [["popitem", True], ["popitem", False], ["popitem0"], ["poplistitem", True], ["poplistitem", False],
-               ["clear"], ["copy"], ["deepcopy"], ["pickle", 2], ["pickle", 4], ["fromkeys", ["a", "b", "a"], nv()],
+               ["clear"], ["copy"], ["deepcopy"], ["pickle", 2], ["pickle", 4], ["pickle", 0], ["pickle", 1], ["fromkeys", ["a", "b", "a"], nv()],
                ["eq", three], ["eq", []]]
         return al
 
